@@ -65,3 +65,17 @@ Theorem C06_nested_window_discipline : forall (A B : Type) (enc : dframe A -> li
   p_overrun (n_out n) = false /\ (bytes (p_rq (n_out n)) <= WO)%nat.
 Proof. exact nested_window_discipline. Qed.
 Print Assumptions C06_nested_window_discipline.
+
+(* code shape, regenerated from the source on every run (see theories/SkelReceiver.v) *)
+From Coq Require Import String.
+From GT Require Import SkelReceiver.
+From GTgen Require Import Params.
+Local Open Scope string_scope.
+Theorem C06_receiver_accept_shape : skel_defaultReceiver_accept =
+  ["call measure"; "call mu.Lock"; "defer call mu.Unlock"; "set currentWindow"; "call items.Len"; "call items.PushBack"; "call cond.Signal"].
+Proof. exact defaultReceiver_accept_shape. Qed.
+Print Assumptions C06_receiver_accept_shape.
+Theorem C06_receiver_dequeue_shape : skel_defaultReceiver_dequeue =
+  ["defer func"; "call mu.Lock"; "defer call mu.Unlock"; "call items.Front"; "call items.Remove"; "call measure"; "set currentWindow"; "call cond.Wait"].
+Proof. exact defaultReceiver_dequeue_shape. Qed.
+Print Assumptions C06_receiver_dequeue_shape.
